@@ -168,7 +168,7 @@ func main() {
 						solvers[0].Log = f
 					}
 				}
-				ro := sym.RunOpts{GoPolicy: tc.GoPolicy, Rounds: tc.Rounds, TimeoutMs: tc.TimeoutMs, CrossCheck: tc.CrossCheck}
+				ro := sym.RunOpts{Prop: *prop, GoPolicy: tc.GoPolicy, Rounds: tc.Rounds, TimeoutMs: tc.TimeoutMs, CrossCheck: tc.CrossCheck}
 				if ro.TimeoutMs == 0 {
 					ro.TimeoutMs = 120000
 				}
